@@ -568,6 +568,9 @@ func (gen *Generator) GenerateInclude(args []Sexp) error {
 	if len(args) < 1 {
 		return WrongNargs
 	}
+	if gen.env.sandboxed {
+		return fmt.Errorf("include: reading files is not allowed in a sandboxed interpreter")
+	}
 
 	var err error
 	var exps []Sexp
